@@ -16,6 +16,7 @@ use crate::reg::Reg;
 #[cfg(feature = "c12")] pub mod c12;
 #[cfg(feature = "c11")] pub mod c11;
 #[cfg(feature = "c03")] pub mod c03;
+#[cfg(feature = "c02")] pub mod c02;
 
 pub fn register(prop: &str, reg: &mut Reg) {
     match prop {
@@ -34,6 +35,7 @@ pub fn register(prop: &str, reg: &mut Reg) {
         #[cfg(feature = "c12")] "C12" => c12::register(reg),
         #[cfg(feature = "c11")] "C11" => c11::register(reg),
         #[cfg(feature = "c03")] "C03" => c03::register(reg),
+        #[cfg(feature = "c02")] "C02" => c02::register(reg),
         _ => { eprintln!("symx: property {} not available in this build", prop); std::process::exit(2); }
     }
 }
